@@ -42,7 +42,7 @@ ApplyOp(t, op) ==
     [] op.name = "set_padding" -> DoSetPad(t, op.v)
     [] op.name = "resize" -> DoResize(t, op.v)
     [] op.name = "set_render_args" ->
-         DoSet(t, "args", op.v, op.v # "incompatible", "IncompatibleRenderArgsError")
+         DoSet(t, "args", op.v, op.v \notin Incompat, "IncompatibleRenderArgsError")
     [] op.name = "set_render_size" -> DoSet(t, "size", op.v, TRUE, "")
     [] op.name \in {"close", "drop"} -> DoClose(t)
 
